@@ -29,6 +29,10 @@ def resp_field(term, variant, idx):
 
 
 def check(run):
+    ob_block_lookup(run, "O14.10")
+    # the requester accepts a slice count only through check_proof_last / check_proof: their index-domain and last-leaf obligations
+    from . import C15
+    C15.check(run, prefix="O14.9")
     D.ob_state_mutations(run, "O14.8", ['repair::Repair'], 'outstanding requests, proven roots and slice counts are what responses are checked against: clearing or overwriting them derails or corrupts a repair')
     prog = run.program("lib")
     fam = [b for b in prog.family(REP + "::handle_response") if b.is_closure and b.defpath.endswith("handle_response::{closure#0}")]
@@ -274,3 +278,39 @@ def ob_create_proof_guard(run, oid):
     if not tb:
         o.missing("RepairRequestHandler::try_build_response")
     _create_proof_guard(prog, o, tb)
+
+
+def ob_block_lookup(run, oid):
+    """BlockstoreImpl::get_block_data - the lookup behind everything the responder serves and behind 'already repaired?'"""
+    from engine import paths
+    prog = run.program("lib")
+    o = run.ob(oid, "a block is looked up as the slot's disseminated block only if that block's hash equals the requested hash; in every other case the repaired blocks are consulted",
+               "otherwise a block the node holds through repair next to a different disseminated block of the slot (equivocating leader) is reported as not held: requests for it are "
+               "NACKed and it is repaired again for ever", floor=3)
+    b = prog.body(A + "consensus::blockstore::BlockstoreImpl::get_block_data")
+    if b is None:
+        o.missing("BlockstoreImpl::get_block_data")
+        return
+    rows = paths.decision_table(b, prog)
+    n_dis = n_rep = 0
+    bad = []
+    for atoms, ret, blocks in rows:
+        if ret is None:
+            bad.append("no result")
+            continue
+        if K.mentions_call(ret, "from_residual"):
+            continue        # slot unknown: `?`
+        if K.mentions_field(ret, "disseminated") and not K.mentions_field(ret, "repaired"):
+            ok = any(a[0] == "eq" and a[2] is True and any(K.mentions_field(x, "completed") for x in a[1]) and any(K.mentions_arg(b, x, 2) for x in a[1]) for a in atoms)
+            n_dis += 1
+            if not ok:
+                bad.append("disseminated returned without hash equality")
+        elif K.mentions_field(ret, "repaired") and K.mentions_call(ret, "BTreeMap::get") and K.mentions_arg(b, ret, 2):
+            n_rep += 1
+        else:
+            bad.append("row answers %s under %s" % (mir.show(ret)[:60], G.atoms_show(atoms)[-2:]))
+    o.check(not bad and n_dis >= 1, "get_block_data|disseminated-only-on-equal-hash", "the disseminated block is returned only when its completed hash == requested hash", b.span, {"bad": bad[:3]})
+    o.check(not bad and n_rep >= 2, "get_block_data|otherwise-repaired", "every other case (not completed, or another hash) consults repaired[hash]", b.span, {"rows": len(rows), "repaired_rows": n_rep})
+    callers = sorted(set(K.root_fn(c.body.defpath).rsplit("::", 1)[-1] for c in prog.callers_of(b.defpath)))
+    o.check({"get_block", "get_shred", "get_slice_root", "get_last_slice_index", "create_double_merkle_proof"} <= set(callers), "get_block_data|used-by-all-getters",
+            "all block getters go through this lookup", b.span, {"callers": callers})
